@@ -9,7 +9,7 @@ mkdir -p "$T/repo" "$T/verif/evidence"
 rsync -a --exclude .git /repo/ "$T/repo/"
 cp /verif/known_findings.json "$T/verif/"
 if ! (cd "$T/repo" && patch -p1 -s < "$patch"); then echo "PATCH-FAILED $patch"; exit 3; fi
-if ! (cd "$T/repo" && GOFLAGS=-mod=mod GOPROXY=off GOSUMDB=off GOTOOLCHAIN=local go build ./... 2>&1 | head -5); then echo "BUILD-FAILED"; exit 3; fi
+bo=$(cd "$T/repo" && GOFLAGS=-mod=mod GOPROXY=off GOSUMDB=off GOTOOLCHAIN=local go build ./... 2>&1) || { echo "BUILD-FAILED $(basename "$patch"): $(echo "$bo" | head -3 | tr '\n' '|')"; exit 3; }
 rc=0
 for p in "$@"; do
   out=$(FPCHECK_REPO="$T/repo" FPCHECK_VERIF="$T/verif" /verif/run.sh "$p" quick 2>&1)
